@@ -549,8 +549,12 @@ class _Module:
                     if k != 'param':
                         out.setdefault('uses', []).append((alias[n.id], k, n.lineno))
             calls_out: dict[str, dict[int, set[str]]] = {}
-            for v, line in _element_mutations(fn, alias, set(self.views), elem_taint.get(name), calls_out):
-                out.setdefault('elem_mut', []).append((v, line))
+            muts = _element_mutations(fn, alias, set(self.views), elem_taint.get(name), calls_out)
+            for v in sorted({v for v, _, _ in muts}):
+                late = name == fname and _mutations_come_last(fn, [n for w, _, n in muts if w == v])
+                for w, line, _ in muts:
+                    if w == v:
+                        out.setdefault('elem_mut', []).append((v, line, late))
             for callee_name, by_pos in calls_out.items():
                 if callee_name not in self.methods:
                     continue
@@ -738,16 +742,35 @@ def _element_mutations(fn: ast.FunctionDef, alias: dict[str, str], views: set[st
     least two links long.  May-analysis: over-approximate (a number computed from a view taints its name, but numbers
     have no attribute stores); the result is a census of (view) pairs, compared with the list that was reviewed."""
     taint: dict[str, set[str]] = {k: set(v) for k, v in (param_taint or {}).items()}
+    me = fn.args.args[0].arg if fn.args.args else ''
+    holder: dict[str, set[str]] = {}     # local containers that were handed such objects: `d[ent] = x`, `l.append(ent)`
 
     def mentions(e: ast.AST) -> set[str]:
+        """Views through which the object denoted by `e` may be reached.  `a[i]` and `a.f` are reached through `a` (the
+        index only selects); any other expression may hand on whatever its sub-expressions denote."""
+        if isinstance(e, ast.Name):
+            return ({alias[e.id]} if e.id in alias else set()) | taint.get(e.id, set()) | holder.get(e.id, set())
+        if _is_self_attr(e) and e.attr in views:
+            return {e.attr}
+        if isinstance(e, (ast.Subscript, ast.Attribute, ast.Starred)):
+            return mentions(e.value)
         out: set[str] = set()
-        for x in ast.walk(e):
-            if isinstance(x, ast.Name):
-                if x.id in alias:
-                    out.add(alias[x.id])
-                out |= taint.get(x.id, set())
-            elif _is_self_attr(x) and x.attr in views:
-                out.add(x.attr)
+        if isinstance(e, ast.Call):
+            # a method of such an object (or of a container of them) hands out its parts: `vmf.by_class[c]`, `d.items()`;
+            # a function of a module (`itertools.zip_longest(a, b)`) and the re-packing builtins hand on their arguments;
+            # any other call (a constructor: `BModel(..., self.nodes[i])`, `int(x)`) makes a new object of the caller's own
+            args = list(e.args) + [k.value for k in e.keywords]
+            if isinstance(e.func, ast.Attribute):
+                out = mentions(e.func.value)
+                if not out and isinstance(e.func.value, ast.Name):
+                    for a in args:
+                        out |= mentions(a)
+            elif isinstance(e.func, ast.Name) and e.func.id in _REPACKING:
+                for a in args:
+                    out |= mentions(a)
+            return out
+        for ch in ast.iter_child_nodes(e):
+            out |= mentions(ch)
         return out
 
     def bind(target: ast.AST, vs: set[str]) -> bool:
@@ -764,9 +787,27 @@ def _element_mutations(fn: ast.FunctionDef, alias: dict[str, str], views: set[st
         for n in ast.walk(fn):
             if isinstance(n, ast.Assign):
                 vs = mentions(n.value)
-                if vs:
-                    for t in n.targets:
+                for t in n.targets:
+                    if vs:
                         changed |= bind(t, vs)
+                    # a local container that receives such an object (as key or value) hands it on: `d[ent] = x`
+                    if isinstance(t, ast.Subscript):
+                        r = t.value
+                        while isinstance(r, (ast.Subscript, ast.Attribute)):
+                            r = r.value
+                        ws = vs | mentions(t.slice)
+                        if isinstance(r, ast.Name) and r.id not in alias and r.id != me and ws and not ws <= holder.get(r.id, set()):
+                            holder.setdefault(r.id, set()).update(ws)
+                            changed = True
+            elif isinstance(n, ast.Call) and isinstance(n.func, ast.Attribute) and isinstance(n.func.value, ast.Name) \
+                    and n.func.attr in (APPEND_METHODS | {'add', 'insert', 'setdefault', 'update'}) and n.func.value.id not in alias \
+                    and n.func.value.id != me:
+                ws = set()
+                for a in n.args:
+                    ws |= mentions(a)
+                if ws and not ws <= holder.get(n.func.value.id, set()):
+                    holder.setdefault(n.func.value.id, set()).update(ws)
+                    changed = True
             elif isinstance(n, (ast.AnnAssign, ast.NamedExpr)) and getattr(n, 'value', None) is not None:
                 vs = mentions(n.value)
                 if vs:
@@ -799,7 +840,9 @@ def _element_mutations(fn: ast.FunctionDef, alias: dict[str, str], views: set[st
         if isinstance(e, ast.Name):
             if e.id in alias:
                 return {alias[e.id]}, depth
-            return set(taint.get(e.id, set())), depth + 1      # an element: one link below the view already
+            if e.id in taint:
+                return set(taint[e.id]), depth + 1      # an element: one link below the view already
+            return set(holder.get(e.id, set())), depth   # a local container of elements: like the view itself
         return set(), depth
 
     if calls_out is not None:       # objects handed to other BSP methods: their parameters are tainted there
@@ -812,7 +855,7 @@ def _element_mutations(fn: ast.FunctionDef, alias: dict[str, str], views: set[st
                 for kw in n.keywords:
                     if mentions(kw.value):
                         raise TranslateError(f'bsp.py BSP.{fn.name}:{n.lineno}: object of a view handed to self.{n.func.attr} by keyword')
-    found: list[tuple[str, int]] = []
+    found: list[tuple[str, int, ast.AST]] = []
     for n in ast.walk(fn):
         recv = None
         if isinstance(n, (ast.Attribute, ast.Subscript)) and isinstance(n.ctx, (ast.Store, ast.Del)):
@@ -825,8 +868,72 @@ def _element_mutations(fn: ast.FunctionDef, alias: dict[str, str], views: set[st
             continue
         vs, depth = root(recv)
         if vs and depth + extra >= 2:
-            found += [(v, n.lineno) for v in sorted(vs)]
+            found += [(v, n.lineno, n) for v in sorted(vs)]
     return found
+
+
+_REPACKING = {'list', 'tuple', 'sorted', 'reversed', 'zip', 'enumerate', 'iter', 'next', 'set', 'frozenset', 'dict', 'filter',
+              'min', 'max', 'cast', 'copy', 'deepcopy'}
+_PURE_STR_TESTS = {'startswith', 'endswith', 'isdigit', 'lower', 'upper', 'casefold', 'strip'}
+
+
+def _mutations_come_last(fn: ast.FunctionDef, sites: list[ast.AST]) -> bool:
+    """True when, from the first top-level statement of `fn` that contains one of the mutation `sites` on, the function
+    consists only of: the mutation statements themselves (a mutating call as a statement, an assignment / deletion whose
+    target is a site, with a plain name or constant as value), `for` loops over an attribute chain and `if` tests made of
+    comparisons, boolean operators, subscripts, attribute chains and pure string tests around such statements, `pass` and
+    a final `return <name>`.  Then nothing that could raise for lack of data follows the first change (the tests were
+    all evaluated before, by whatever decided that the lump parses)."""
+    ids = {id(x) for x in sites}
+    first = None
+    for k, st in enumerate(fn.body):
+        if any(id(x) in ids for x in ast.walk(st)):
+            first = k
+            break
+    if first is None:
+        return False        # the sites are not in this function's own body
+
+    def plain(e: ast.AST | None) -> bool:
+        return e is None or isinstance(e, (ast.Name, ast.Constant))
+
+    def chain(e: ast.AST) -> bool:
+        while isinstance(e, (ast.Attribute, ast.Subscript)):
+            if isinstance(e, ast.Subscript) and not isinstance(e.slice, (ast.Constant, ast.Name)):
+                return False
+            e = e.value
+        return isinstance(e, ast.Name)
+
+    def test(e: ast.AST) -> bool:
+        if isinstance(e, ast.BoolOp):
+            return all(test(v) for v in e.values)
+        if isinstance(e, ast.UnaryOp) and isinstance(e.op, ast.Not):
+            return test(e.operand)
+        if isinstance(e, ast.Compare):
+            return all(test(x) for x in [e.left, *e.comparators])
+        if isinstance(e, ast.Call):
+            return isinstance(e.func, ast.Attribute) and e.func.attr in _PURE_STR_TESTS and chain(e.func.value) \
+                and all(isinstance(a, ast.Constant) for a in e.args) and not e.keywords
+        return isinstance(e, ast.Constant) or chain(e)
+
+    def clean(st: ast.stmt) -> bool:
+        if isinstance(st, (ast.Pass, ast.Continue)):
+            return True
+        if isinstance(st, ast.Return):
+            return plain(st.value)
+        if isinstance(st, ast.Expr):
+            c = st.value
+            return isinstance(c, ast.Call) and id(c) in ids and all(plain(a) for a in c.args) and not c.keywords
+        if isinstance(st, ast.Assign):
+            return all(id(t) in ids for t in st.targets) and plain(st.value)
+        if isinstance(st, ast.Delete):
+            return all(id(t) in ids for t in st.targets)
+        if isinstance(st, ast.For):
+            return chain(st.iter) and isinstance(st.target, ast.Name) and not st.orelse and all(clean(b) for b in st.body)
+        if isinstance(st, ast.If):
+            return test(st.test) and all(clean(b) for b in st.body) and all(clean(b) for b in st.orelse)
+        return False
+
+    return all(clean(st) for st in fn.body[first:])
 
 
 
@@ -1178,7 +1285,7 @@ def translate() -> tuple[str, dict]:
     side_views = {}
     view_uses: list[tuple[str, int, int, str, int]] = []
     reader_stores: list[tuple[int, int, int]] = []
-    elem_muts: list[tuple[str, int, int, int]] = []
+    elem_muts: list[tuple[str, int, int, int, bool]] = []
     for i, v in enumerate(view_at):
         if v is None:
             decls.append(([], [], [], []))
@@ -1211,9 +1318,9 @@ def translate() -> tuple[str, dict]:
         for who, eff in (('reader', rd), ('writer', wr)):
             for used, kind, line in eff.get('uses', []):
                 view_uses.append((who, i, vnum(used, v), kind, line))
-            for used, line in eff.get('elem_mut', []):
+            for used, line, late in eff.get('elem_mut', []):
                 if used != v:       # a reader builds, a writer may normalise, the objects of its OWN view
-                    elem_muts.append((who, i, vnum(used, v), line))
+                    elem_muts.append((who, i, vnum(used, v), line, late))
         decls.append((own, rdeps, wdeps, wstore))
         side_views[v] = {
             'position': i, 'main': m.views[v][0], 'extra': m.views[v][1],
@@ -1238,7 +1345,10 @@ def translate() -> tuple[str, dict]:
         return '[' + '; '.join(f'({a}, {b}, {k})' for a, b, k in trip) + ']'
 
     def emuts(who: str) -> str:
-        return '[' + '; '.join(f'({a}, {b})' for a, b in sorted({(a, b) for w, a, b, _ in elem_muts if w == who})) + ']'
+        return '[' + '; '.join(f'({a}, {b})' for a, b in sorted({(a, b) for w, a, b, _, _ in elem_muts if w == who})) + ']'
+
+    def emuts_early() -> str:
+        return '[' + '; '.join(f'({a}, {b})' for a, b in sorted({(a, b) for w, a, b, _, late in elem_muts if w == 'reader' and not late})) + ']'
 
     def cb(b: bool) -> str:
         return 'true' if b else 'false'
@@ -1284,13 +1394,16 @@ def translate() -> tuple[str, dict]:
         '(* objects reached through ANOTHER view that a reader / writer changes in place: (view, view whose objects change) *)',
         'Definition bsp_reader_elem_mutations : list (nat * nat) := ' + emuts('reader') + '.',
         'Definition bsp_writer_elem_mutations : list (nat * nat) := ' + emuts('writer') + '.',
+        '(* ... of these, the pairs where some change is followed by code of the reader that can still raise *)',
+        'Definition bsp_reader_elem_mutations_early : list (nat * nat) := ' + emuts_early() + '.',
         '',
     ]
     side = {
         'get_shape': gshape, 'save_shape': sshape, 'container_layout': lay,
         'reader_stores': [[view_at[a], names[b], ln] for a, b, ln in sorted(set(reader_stores))],
         'view_uses': [[w, view_at[a], (view_at[b] if b < len(view_at) else '?'), k, ln] for w, a, b, k, ln in sorted(set(view_uses))],
-        'elem_mutations': [[w, view_at[a], (view_at[b] if b < len(view_at) else '?'), ln] for w, a, b, ln in sorted(set(elem_muts))],
+        'elem_mutations': [[w, view_at[a], (view_at[b] if b < len(view_at) else '?'), ln, 'last' if late else 'early']
+                           for w, a, b, ln, late in sorted(set(elem_muts))],
         'order': order, 'views': side_views, 'not_in_order': not_in_order, 'order_without_view': order_without_view,
         'cond_stores': [[view_at[a], names[b], c] for a, b, c in cond_stores],
         'graph': [list(map(list, d)) for d in decls], 'view_at': view_at,
